@@ -524,7 +524,10 @@ def run(tape, prop, tier):
                 h.last_sched = 'auth-retry'
                 respond(conn, b'no', 401, 'Unauthorized', headers + [('WWW-Authenticate', 'Basic realm="x"')])
             else:
-                redirect(302, Target(tape, simple=True))
+                # (a 307/308 hop replays the request with its login, so the next hop can be challenged and retried again:
+                # a cycle of redirect - 401 - retry - redirect ... must still end at the redirect limit)
+                code = tape.choice((302, 307, 308, 307), 'ara.code')
+                redirect(code, Target(tape, origin=oi if tape.chance(2, 3, 'ara.same_origin') else None, simple=True))
 
     h.on_request = on_request
     try:
